@@ -357,6 +357,18 @@ func (g *Gen) genDeposit() Op {
 		dep = g.user()
 		ky = g.kycFor(dep)
 	}
+	if gl := g.liveGrants(1); len(gl) > 0 && g.chance(0.12) {
+		// a delegated deposit under an existing grant, mostly consuming it only partly
+		gr := pick(g.r, gl)
+		signer, dep, ky = gr.grantee, gr.granter, g.kycFor(gr.granter)
+		if gr.limit.IsInt64() && gr.limit.Int64() > 2 && g.chance(0.8) {
+			min := g.c.Cfg.House.MinDeposit.Int64()
+			if a := min + g.r.Int63n(gr.limit.Int64()); a < gr.limit.Int64() || g.chance(0.3) {
+				amt = a
+			}
+		}
+		g.stats["deposit_under_grant"]++
+	}
 	return Op{Kind: "DEP", Signer: signer, Tk: g.ticket(), Mkt: m.uid, Amount: bi(amt), Ky: ky, Depositor: dep}
 }
 
@@ -380,9 +392,21 @@ func (g *Gen) genWithdraw() Op {
 	if signer < 0 || signer >= int64(len(g.c.Acc)) {
 		signer = g.user() // nobody can sign for a subaccount address
 	}
+	underGrant := false
+	if gl := g.liveGrants(2); len(gl) > 0 && g.chance(0.25) {
+		// a delegated withdrawal under an existing grant: a participation of the granter, signed by the grantee
+		gr := pick(g.r, gl)
+		for _, q := range parts {
+			if g.c.AccID(q.ParticipantAddress) == gr.granter && !q.IsSettled {
+				p, owner, signer, dep, underGrant = q, gr.granter, gr.grantee, gr.granter, true
+				g.stats["withdraw_under_grant"]++
+				break
+			}
+		}
+	}
 	mode := int64(1)
 	amt := int64(0)
-	if g.chance(0.6) {
+	if g.chance(0.6) || underGrant {
 		mode = 2
 		mx := p.CurrentRoundLiquidity.Int64()
 		if !p.CurrentRoundMaxLoss.IsNegative() {
@@ -398,8 +422,11 @@ func (g *Gen) genWithdraw() Op {
 		default:
 			amt = 1 + int64(g.r.Intn(50))
 		}
-		if g.chance(0.3) && amt > 100 {
+		if (g.chance(0.3) || underGrant) && amt > 100 {
 			amt = 1 + g.r.Int63n(100) // small enough for a withdraw grant
+		}
+		if underGrant && g.chance(0.7) {
+			amt = 1 + g.r.Int63n(40) // consume the grant only partly
 		}
 	}
 	if g.chance(0.02) {
@@ -596,6 +623,22 @@ func (g *Gen) genWager() Op {
 		OddsVal: ov, Mult: mu, Ky: g.kycFor(signer), OddsType: ot, AllOdds: all}
 }
 
+type gGrant struct {
+	granter, grantee int64
+	limit            *big.Int
+}
+
+// liveGrants lists the house grants of the given kind (1 deposit, 2 withdraw) that exist in the authz store
+func (g *Gen) liveGrants(kind int64) []gGrant {
+	var l []gGrant
+	for _, ln := range g.c.grantLines() {
+		if ln.kind == kind {
+			l = append(l, gGrant{granter: ln.granter, grantee: ln.grantee, limit: ln.limit})
+		}
+	}
+	return l
+}
+
 func (g *Gen) genGrant() Op {
 	granter, grantee := g.user(), g.user()
 	kind := int64(1 + g.r.Intn(2))
@@ -771,6 +814,13 @@ func (g *Gen) genPropose() Op {
 		keys = append(keys, int64(perm[n]), int64(perm[n+1]))
 	case g.chance(0.06):
 		keys = append(keys, keys[0]) // duplicate: removed by the handler
+	case g.chance(0.10):
+		// the same key once more with different white space around its PEM text: still a duplicate
+		j := g.r.Intn(len(keys))
+		keys = append(keys, keys[j]+int64(100*(1+g.r.Intn(2))))
+	case g.chance(0.05):
+		j := g.r.Intn(len(keys))
+		keys[(j+1)%len(keys)] = keys[j] + 100 // 4 or 5 entries, one key twice in two spellings
 	case g.chance(0.03):
 		keys[1] = -1 // not a key
 	}
